@@ -40,7 +40,7 @@ func racePass() {
 	races := strings.Count(text, "WARNING: DATA RACE")
 	if races > 0 {
 		// signature: the two innermost driver functions of the first report
-		re := regexp.MustCompile(`midicatdrv\.\(\*(\w+)\)\.(\w+)`)
+		re := regexp.MustCompile(`gitlab\.com/gomidi/midi/v2[\w/]*\.((?:\(\*?\w+\)\.)?\w+)`)
 		fn := map[string]bool{}
 		var names []string
 		first := text[strings.Index(text, "WARNING: DATA RACE"):]
@@ -48,7 +48,7 @@ func racePass() {
 			first = first[:k]
 		}
 		for _, m := range re.FindAllStringSubmatch(first, -1) {
-			n := m[1] + "." + m[2]
+			n := m[1]
 			if !fn[n] && len(names) < 2 {
 				fn[n] = true
 				names = append(names, n)
